@@ -986,3 +986,324 @@ Proof. reflexivity. Qed.
 (* the shutdown drain re-creates the wait map (49ec96f) *)
 Lemma src_drain_resets_map : c09_drain_resets_map = fix_drain current.
 Proof. reflexivity. Qed.
+
+(* ==================== deepening: complete checks, persistence, liveness ==================== *)
+Lemma chk_adv s c snap q e : Inv s -> chk s = InFlight c snap q -> chk (step current s e) = adv c snap q e.
+Proof.
+  intros I Hk. unfold step. rewrite (i_nopanic _ I).
+  destruct e as [h n|h|h n|blk nonce newtx| |rs| |fb|w| |]; cbn [adv].
+  - cbn [fresh]. cbv zeta.
+    match goal with |- chk (watch_tx ?v ?t ?w ?h ?n) = _ => destruct (frame_watch v t w h n) as (_ & _ & _ & F & _); rewrite F end.
+    exact Hk.
+  - cbn [fresh]. cbv zeta. cbn [pending]. destruct (lookup h (pending s)).
+    + match goal with |- chk (watch_tx ?v ?t ?w ?h ?n) = _ => destruct (frame_watch v t w h n) as (_ & _ & _ & F & _); rewrite F end.
+      exact Hk.
+    + exact Hk.
+  - cbn [fresh]. cbv zeta.
+    match goal with |- chk (watch_tx ?v ?t ?w ?h ?n) = _ => destruct (frame_watch v t w h n) as (_ & _ & _ & F & _); rewrite F end.
+    exact Hk.
+  - destruct (wl_exited s); [exact Hk|]. destruct blk as [b|]; [|exact Hk].
+    destruct ((b <=? last_block s) && negb newtx); [exact Hk|]. destruct nonce; [|exact Hk].
+    cbn [chk]. rewrite Hk. reflexivity.
+  - rewrite Hk. exact Hk.
+  - rewrite Hk. destruct q; [|exact Hk]. destruct (take_batch snap rs). reflexivity.
+  - rewrite Hk. destruct q; [reflexivity|exact Hk].
+  - rewrite Hk. destruct q as [|[[n h] r] q]; [exact Hk|]. reflexivity.
+  - destruct (lookup w (internal s)) as [hh|]; [|exact Hk]. destruct (out_of w (delivered s)) as [o|]; [|exact Hk].
+    destruct o; cbn [fix_pending current]; try exact Hk.
+    destruct (lookup hh (pending (set_internal s (remove_key w (internal s))))); exact Hk.
+  - exact Hk.
+  - destruct (closed s && negb (wl_exited s)); [|exact Hk]. cbn [chk].
+    destruct (frame_fold OClosed (map waiter_of (wait s)) s) as (_ & _ & _ & F & _). rewrite F. exact Hk.
+Qed.
+
+(* ---- outcomes, once delivered, stay -------------------------------------------------------- *)
+Definition dext (s s' : mon) : Prop := exists l, delivered s' = delivered s ++ l.
+Lemma dext_same s s' : delivered s' = delivered s -> dext s s'.
+Proof. intro H. exists []. rewrite app_nil_r. exact H. Qed.
+Lemma dext_refl s : dext s s. Proof. apply dext_same. reflexivity. Qed.
+Lemma dext_trans a b c : dext a b -> dext b c -> dext a c.
+Proof. intros [l1 H1] [l2 H2]. exists (l1 ++ l2). rewrite H2, H1, app_assoc. reflexivity. Qed.
+Lemma dext_send s w o : dext s (send s w o).
+Proof. unfold send. destruct (memN w (closedch s)); [apply dext_same; reflexivity|]. exists [(w, o)]. reflexivity. Qed.
+Lemma dext_fold o : forall ws s, dext s (fold_left (fun s w => send s w o) ws s).
+Proof. induction ws; cbn; intro s; [apply dext_refl|]. eapply dext_trans; [apply dext_send|apply IHws]. Qed.
+Lemma dext_notify s n h o : dext s (notify s n h o).
+Proof. unfold notify. cbv zeta. destruct (dext_fold o (map waiter_of (filter (key_is n h) (wait s))) s) as [l H]. exists l. exact H. Qed.
+Lemma dext_watch v s w h n : dext s (watch_tx v s w h n).
+Proof.
+  unfold watch_tx. cbv zeta. cbn [drained]. destruct (fix_drain v && drained s).
+  - eapply dext_trans; [|apply dext_send]. apply dext_same. reflexivity.
+  - apply dext_same. reflexivity.
+Qed.
+Lemma dext_proc s c n h r fb : dext s (proc current s c n h r fb).
+Proof.
+  unfold proc. cbn [fix_fallback current].
+  destruct r; [| |destruct fb as [[]|]..];
+    try (eapply dext_trans; [|apply dext_notify]); apply dext_same; reflexivity.
+Qed.
+
+Lemma dext_step s e : dext s (step current s e).
+Proof.
+  unfold step. destruct (panicked s); [apply dext_same; reflexivity|].
+  destruct e as [h n|h|h n|blk nonce newtx| |rs| |fb|w| |].
+  - cbn [fresh]. cbv zeta. eapply dext_trans; [|apply dext_watch]. apply dext_same; reflexivity.
+  - cbn [fresh]. cbv zeta. cbn [pending]. destruct (lookup h (pending s)).
+    + eapply dext_trans; [|apply dext_watch]. apply dext_same; reflexivity.
+    + apply dext_same; reflexivity.
+  - cbn [fresh]. cbv zeta. eapply dext_trans; [|apply dext_watch]. apply dext_same; reflexivity.
+  - destruct (wl_exited s); [apply dext_same; reflexivity|]. destruct blk as [b|]; [|apply dext_same; reflexivity].
+    destruct ((b <=? last_block s) && negb newtx); [apply dext_same; reflexivity|]. destruct nonce; apply dext_same; reflexivity.
+  - destruct (chk s); apply dext_same; reflexivity.
+  - destruct (chk s) as [| |c snap q]; try (apply dext_same; reflexivity). destruct q; [|apply dext_same; reflexivity].
+    destruct (take_batch snap rs). apply dext_same; reflexivity.
+  - destruct (chk s) as [| |c snap q]; try (apply dext_same; reflexivity). destruct q; apply dext_same; reflexivity.
+  - destruct (chk s) as [| |c snap q]; try (apply dext_same; reflexivity). destruct q as [|[[n h] r] q]; [apply dext_same; reflexivity|].
+    destruct (dext_proc s c n h r fb) as [l H]. exists l. exact H.
+  - destruct (lookup w (internal s)) as [hh|]; [|apply dext_same; reflexivity]. destruct (out_of w (delivered s)) as [o|]; [|apply dext_same; reflexivity].
+    destruct o; cbn [fix_pending current]; try (apply dext_same; reflexivity).
+    destruct (lookup hh (pending (set_internal s (remove_key w (internal s))))); apply dext_same; reflexivity.
+  - apply dext_same; reflexivity.
+  - destruct (closed s && negb (wl_exited s)); [|apply dext_same; reflexivity].
+    destruct (dext_fold OClosed (map waiter_of (wait s)) s) as [l H]. exists l. exact H.
+Qed.
+
+Lemma dext_run_from : forall evs s, dext s (run_from current s evs).
+Proof.
+  induction evs as [|e evs IH]; cbn; intro s; [apply dext_refl|].
+  eapply dext_trans; [apply dext_step|apply IH].
+Qed.
+
+Theorem delivered_stays : forall evs evs' w o,
+  In (w, o) (delivered (run current evs)) -> In (w, o) (delivered (run current (evs ++ evs'))).
+Proof.
+  intros evs evs' w o H. unfold run. rewrite fold_left_app.
+  destruct (dext_run_from evs' (fold_left (step current) evs init)) as [l Hl]. unfold run_from in Hl.
+  rewrite Hl. apply in_or_app. left. exact H.
+Qed.
+
+Lemma inv_run_from : forall evs s, Inv s -> Inv (run_from current s evs).
+Proof. induction evs as [|e evs IH]; cbn; intros s I; [exact I|]. apply IH, step_inv, I. Qed.
+
+Lemma wait_send s w o : wait (send s w o) = wait s.
+Proof. unfold send. destruct (memN w (closedch s)); reflexivity. Qed.
+Lemma wait_fold o : forall ws s, wait (fold_left (fun s w => send s w o) ws s) = wait s.
+Proof. induction ws; cbn; intro s; [reflexivity|]. rewrite IHws. apply wait_send. Qed.
+Lemma wait_notify s n h o : wait (notify s n h o) = filter (fun e => negb (key_is n h e)) (wait s).
+Proof. unfold notify. cbv zeta. cbn [set_wait wait]. rewrite wait_fold. reflexivity. Qed.
+Lemma wait_watch v s w h n e : In e (wait s) -> In e (wait (watch_tx v s w h n)).
+Proof.
+  intro H. unfold watch_tx. cbv zeta. cbn [drained]. destruct (fix_drain v && drained s).
+  - rewrite wait_send. exact H.
+  - cbn [set_wait wait]. apply in_or_app. left. exact H.
+Qed.
+
+Lemma key_other n h n' h' w : (n' =? n) && (h' =? h) = false -> negb (key_is n' h' (n, h, w)) = true.
+Proof.
+  intro H. cbn. destruct (n =? n') eqn:E1; destruct (h =? h') eqn:E2; try reflexivity.
+  apply N.eqb_eq in E1, E2. subst. rewrite !N.eqb_refl in H. discriminate.
+Qed.
+
+Lemma wait_proc s c n h w n' h' r fb : In (n, h, w) (wait s) -> (n' =? n) && (h' =? h) = false ->
+  In (n, h, w) (wait (proc current s c n' h' r fb)).
+Proof.
+  intros Hin Hk. unfold proc. cbn [fix_fallback current].
+  assert (N1 : forall t o, In (n, h, w) (wait t) -> In (n, h, w) (wait (notify t n' h' o))).
+  { intros t o Ht. rewrite wait_notify. apply filter_In. split; [exact Ht|apply key_other, Hk]. }
+  destruct r; [| |destruct fb as [[]|]..]; try (apply N1); exact Hin.
+Qed.
+
+(* a registered waiter stays registered unless its own element is processed or the drain runs *)
+Lemma wait_step s c snap q e n h w : Inv s -> chk s = InFlight c snap q -> In (n, h, w) (wait s) ->
+  is_proc e && head_is n h q = false ->
+  In (n, h, w) (wait (step current s e)) \/ (e = Drain /\ In (w, OClosed) (delivered (step current s e))).
+Proof.
+  intros I Hk Hin Hh. unfold step. rewrite (i_nopanic _ I).
+  destruct e as [h0 n0|h0|h0 n0|blk nonce newtx| |rs| |fb|w0| |].
+  - left. cbn [fresh]. cbv zeta. apply wait_watch. exact Hin.
+  - left. cbn [fresh]. cbv zeta. cbn [pending]. destruct (lookup h0 (pending s)); [apply wait_watch|]; exact Hin.
+  - left. cbn [fresh]. cbv zeta. apply wait_watch. exact Hin.
+  - left. destruct (wl_exited s); [exact Hin|]. destruct blk as [b|]; [|exact Hin].
+    destruct ((b <=? last_block s) && negb newtx); [exact Hin|]. destruct nonce; exact Hin.
+  - left. destruct (chk s); exact Hin.
+  - left. destruct (chk s) as [| |c0 snap0 q0]; try exact Hin. destruct q0; [|exact Hin].
+    destruct (take_batch snap0 rs). exact Hin.
+  - left. destruct (chk s) as [| |c0 snap0 q0]; try exact Hin. destruct q0; exact Hin.
+  - left. rewrite Hk. destruct q as [|[[n' h'] r] q]; [exact Hin|]. cbn [set_chk wait].
+    apply wait_proc; [exact Hin|]. cbn in Hh. exact Hh.
+  - left. destruct (lookup w0 (internal s)) as [hh|]; [|exact Hin]. destruct (out_of w0 (delivered s)) as [o|]; [|exact Hin].
+    destruct o; cbn [fix_pending current]; try exact Hin.
+    destruct (lookup hh (pending (set_internal s (remove_key w0 (internal s))))); exact Hin.
+  - left. exact Hin.
+  - destruct (closed s && negb (wl_exited s)); [|left; exact Hin]. right. split; [reflexivity|].
+    rewrite send_fold.
+    + cbn [with_wcd delivered]. apply in_or_app. right. apply in_map_iff. exists w. split; [reflexivity|].
+      apply in_map_iff. exists (n, h, w). split; [reflexivity|exact Hin].
+    + intros w1 Hw. apply in_map_iff in Hw. destruct Hw as (e & <- & He). exact (i_open _ I e He).
+    + exact (i_nodupw _ I).
+Qed.
+
+Lemma in_delivered_run_from evs s w o : In (w, o) (delivered s) -> In (w, o) (delivered (run_from current s evs)).
+Proof. intro H. destruct (dext_run_from evs s) as [l Hl]. rewrite Hl. apply in_or_app. left. exact H. Qed.
+
+(* the check follows [drive]; the waiter stays registered, or a drain inside [mid] answered it *)
+Lemma drive_run n h w c : forall mid s snap q snap' q',
+  Inv s -> chk s = InFlight c snap q -> In (n, h, w) (wait s) ->
+  drive n h c snap q mid = Some (snap', q') ->
+  let s2 := run_from current s mid in
+  chk s2 = InFlight c snap' q' /\
+  (In (n, h, w) (wait s2) \/ (In Drain mid /\ In (w, OClosed) (delivered s2))).
+Proof.
+  induction mid as [|e mid IH]; intros s snap q snap' q' I Hk Hin Hd; cbn [drive] in Hd; cbn [run_from fold_left].
+  - inversion Hd; subst. split; [exact Hk|left; exact Hin].
+  - destruct (is_proc e && head_is n h q) eqn:Hh; [discriminate|].
+    pose proof (chk_adv s c snap q e I Hk) as Ha.
+    destruct (adv c snap q e) as [| |c1 snap1 q1] eqn:Ea; try discriminate.
+    assert (c1 = c).
+    { destruct e; cbn in Ea; try (inversion Ea; reflexivity).
+      - destruct q; [|inversion Ea; reflexivity]. destruct (take_batch snap rs) as [a b]. unfold finish in Ea.
+        destruct a; destruct b; inversion Ea; reflexivity.
+      - destruct q; inversion Ea; reflexivity.
+      - destruct q; [inversion Ea; reflexivity|]. unfold finish in Ea. destruct snap; destruct q; inversion Ea; reflexivity. }
+    subst c1.
+    pose proof (step_inv s e I) as I1.
+    destruct (wait_step s c snap q e n h w I Hk Hin Hh) as [Hin1|[-> Hcl]].
+    + destruct (IH (step current s e) snap1 q1 snap' q' I1 Ha Hin1 Hd) as [K1 K2]. split; [exact K1|].
+      destruct K2 as [K2|[K2 K3]]; [left; exact K2|right; split; [right; exact K2|exact K3]].
+    + (* the drain answered the waiter; the check goes on *)
+      assert (G : forall mid' t sn qn, Inv t -> chk t = InFlight c sn qn -> drive n h c sn qn mid' = Some (snap', q') ->
+                   chk (run_from current t mid') = InFlight c snap' q').
+      { clear. induction mid' as [|e mid' IH']; intros t sn qn It Hkt Hdt; cbn [drive] in Hdt; cbn [run_from fold_left].
+        - inversion Hdt; subst. exact Hkt.
+        - destruct (is_proc e && head_is n h qn); [discriminate|].
+          pose proof (chk_adv t c sn qn e It Hkt) as Ha.
+          destruct (adv c sn qn e) as [| |c1 sn1 qn1] eqn:Ea; try discriminate.
+          assert (c1 = c).
+          { destruct e; cbn in Ea; try (inversion Ea; reflexivity).
+            - destruct qn; [|inversion Ea; reflexivity]. destruct (take_batch sn rs) as [a b]. unfold finish in Ea.
+              destruct a; destruct b; inversion Ea; reflexivity.
+            - destruct qn; inversion Ea; reflexivity.
+            - destruct qn; [inversion Ea; reflexivity|]. unfold finish in Ea. destruct sn; destruct qn; inversion Ea; reflexivity. }
+          subst c1. exact (IH' _ _ _ (step_inv t e It) Ha Hdt). }
+      split; [exact (G mid _ _ _ I1 Ha Hd)|]. right. split; [left; reflexivity|].
+      apply in_delivered_run_from. exact Hcl.
+Qed.
+
+(* THE composition: a complete check resolves every waiter registered before its snapshot *)
+Theorem complete_check_resolves : forall pre mid fb post c n h w r o,
+  let s0 := run current pre in
+  chk s0 = Handed c -> In (n, h, w) (wait s0) -> n < c ->
+  complete_check n h c (older c (wait s0)) mid r ->
+  resolves h r fb = Some o ->
+  let s' := run current (pre ++ CheckBegin :: mid ++ Proc fb :: post) in
+  exists o', In (w, o') (delivered s') /\ (forall o'', In (w, o'') (delivered s') -> o'' = o') /\
+             (o' = o \/ (In Drain mid /\ o' = OClosed)).
+Proof.
+  intros pre mid fb post c n h w r o s0 Hk Hin Hlt (snap' & q' & Hd) Hr s'.
+  pose proof (inv_run pre) as I0. fold s0 in I0.
+  destruct (snapshot_covers s0 c n h w (i_nopanic _ I0) Hk Hin Hlt) as (snap & Hk1 & Hsn).
+  set (s1 := step current s0 CheckBegin) in *.
+  assert (Hsnap : snap = older c (wait s0)).
+  { unfold s1, step in Hk1. rewrite (i_nopanic _ I0), Hk in Hk1. cbn [set_chk chk] in Hk1. unfold finish in Hk1.
+    destruct (older c (wait s0)); [discriminate|]. inversion Hk1. reflexivity. }
+  assert (Hw1 : wait s1 = wait s0).
+  { unfold s1, step. rewrite (i_nopanic _ I0), Hk. reflexivity. }
+  pose proof (step_inv s0 CheckBegin I0) as I1. fold s1 in I1.
+  rewrite <- Hsnap in Hd.
+  assert (Hin1 : In (n, h, w) (wait s1)) by (rewrite Hw1; exact Hin).
+  destruct (drive_run n h w c mid s1 snap [] snap' ((n, h, r) :: q') I1 Hk1 Hin1 Hd) as [K1 K2].
+  set (s2 := run_from current s1 mid) in *.
+  pose proof (inv_run_from mid s1 I1) as I2. fold s2 in I2.
+  assert (Es' : s' = run_from current (step current s2 (Proc fb)) post).
+  { unfold s', s2, s1, s0, run, run_from. rewrite fold_left_app. cbn [fold_left]. rewrite fold_left_app. reflexivity. }
+  assert (U : forall o1 o2, In (w, o1) (delivered s') -> In (w, o2) (delivered s') -> o1 = o2).
+  { intros o1 o2 H1 H2. eapply NoDup_fst_unique; [|exact H1|exact H2]. apply at_most_one. }
+  destruct K2 as [K2|[K2 K3]].
+  - destruct (proc_resolves s2 c snap' n h r q' fb o I2 K1 Hr) as [P1 _]. specialize (P1 w K2).
+    exists o. split; [rewrite Es'; apply in_delivered_run_from; exact P1|]. split; [|left; reflexivity].
+    intros o'' H. apply (U o'' o); [exact H|]. rewrite Es'. apply in_delivered_run_from. exact P1.
+  - assert (P : In (w, OClosed) (delivered s')).
+    { rewrite Es'. apply in_delivered_run_from. destruct (dext_step s2 (Proc fb)) as [l Hl]. rewrite Hl. apply in_or_app. left. exact K3. }
+    exists OClosed. split; [exact P|]. split; [|right; split; [exact K2|reflexivity]].
+    intros o'' H. apply (U o'' OClosed); [exact H|exact P].
+Qed.
+
+(* non-vacuity of [complete_check]: two transactions, batches of one, a new waiter and a send in
+   between; transaction 2 (nonce 1) is answered "null" in the batch and NotFound individually *)
+Example complete_check_demo :
+  let pre := [Sent 1 0; Sent 2 1; WatchRaw 2 1; Poll (Some 7) (Some 2) false] in
+  let mid := [BatchReply [(1, RReceipt 1)]; Watch 2; Proc None; Sent 3 2; BatchReply [(2, RNullOverWire)]] in
+  chk (run current pre) = Handed 2 /\ In (1, 2, 2) (wait (run current pre)) /\
+  complete_check 1 2 2 (older 2 (wait (run current pre))) mid RNullOverWire /\
+  resolves 2 RNullOverWire (Some RNotFound) = Some OCancelled /\
+  outcomes_of (run current (pre ++ CheckBegin :: mid ++ [Proc (Some RNotFound)])) 2 = [OCancelled].
+Proof. vm_compute. repeat split; auto. eexists. eexists. reflexivity. Qed.
+
+(* ---- what drives a check: liveness is tied to chain progress ------------------------------- *)
+
+(* a poll that sees no new block and did not receive the new-transaction signal does nothing *)
+Theorem poll_without_news_is_noop : forall s b c, b <= last_block s ->
+  step current s (Poll (Some b) c false) = s.
+Proof.
+  intros s b c Hb. unfold step. destruct (panicked s); [reflexivity|]. destruct (wl_exited s); [reflexivity|].
+  assert (E : (b <=? last_block s) = true) by (apply N.leb_le; exact Hb). rewrite E. reflexivity.
+Qed.
+
+Definition stale_poll (lb : N) (e : event) : Prop := exists b c, e = Poll (Some b) c false /\ b <= lb.
+
+(* hence no number of such polls resolves anybody: without a new block (or a received signal)
+   the state does not move at all *)
+Theorem stalled_without_new_block : forall evs polls,
+  Forall (stale_poll (last_block (run current evs))) polls ->
+  run current (evs ++ polls) = run current evs.
+Proof.
+  intros evs polls H. unfold run. rewrite fold_left_app. fold (run current evs).
+  induction H as [|e polls (b & c & -> & Hb) _ IH]; [reflexivity|].
+  cbn [fold_left]. rewrite poll_without_news_is_noop by exact Hb. exact IH.
+Qed.
+
+(* "eventually resolved" without chain progress is false: the waiter registers after the poll
+   of block 5 (its signal to the busy watch loop is lost), the chain already has its receipt and
+   the confirmed nonce has passed, yet k further polls of block 5 leave it waiting; the poll of
+   block 6 resolves it *)
+Example resolution_without_new_block_refuted : forall k,
+  let pre := [Poll (Some 5) (Some 1) false; CheckBegin; Sent 1 0; WatchRaw 1 0] in
+  let s := run current (pre ++ repeat (Poll (Some 5) (Some 1) false) k) in
+  wait s = [(0, 1, 0); (0, 1, 1)] /\ delivered s = [] /\ chk s = Idle /\
+  delivered (run current ((pre ++ repeat (Poll (Some 5) (Some 1) false) k) ++
+                          [Poll (Some 6) (Some 1) false; CheckBegin; BatchReply [(1, RReceipt 1)]; Proc None]))
+  = [(0, OReceipt 1 1); (1, OReceipt 1 1)].
+Proof.
+  intros k pre s.
+  assert (E : run current (pre ++ repeat (Poll (Some 5) (Some 1) false) k) = run current pre).
+  { apply stalled_without_new_block. apply Forall_forall. intros e He. apply repeat_spec in He. subst e.
+    exists 5, (Some 1). split; [reflexivity|]. vm_compute. discriminate. }
+  unfold s. rewrite E. repeat split; try (vm_compute; reflexivity).
+  unfold run. rewrite fold_left_app. fold (run current (pre ++ repeat (Poll (Some 5) (Some 1) false) k)).
+  rewrite E. vm_compute. reflexivity.
+Qed.
+
+(* what IS guaranteed: the first poll that sees a new block while the checker is idle hands the
+   check over (its snapshot then covers every waiter below the confirmed nonce:
+   snapshot_covers, complete_check_resolves) *)
+Theorem new_block_starts_check : forall s b c nt, panicked s = false -> wl_exited s = false ->
+  chk s = Idle -> last_block s < b ->
+  let s' := step current s (Poll (Some b) (Some c) nt) in
+  chk s' = Handed c /\ wait s' = wait s /\ last_block s' = b.
+Proof.
+  intros s b c nt Hp Hx Hk Hb s'. unfold s', step. rewrite Hp, Hx.
+  assert (E : (b <=? last_block s) = false) by (apply N.leb_gt; exact Hb). rewrite E. cbn [andb].
+  cbn [chk wait last_block]. rewrite Hk. auto.
+Qed.
+
+(* ... whereas a new block polled while a check is still in flight is consumed without a check:
+   the hand-off is dropped (select/default) and lastBlock advances all the same *)
+Theorem new_block_during_check_dropped : forall s b c nt c0 snap q, panicked s = false -> wl_exited s = false ->
+  chk s = InFlight c0 snap q -> last_block s < b ->
+  let s' := step current s (Poll (Some b) (Some c) nt) in
+  chk s' = InFlight c0 snap q /\ last_block s' = b.
+Proof.
+  intros s b c nt c0 snap q Hp Hx Hk Hb s'. unfold s', step. rewrite Hp, Hx.
+  assert (E : (b <=? last_block s) = false) by (apply N.leb_gt; exact Hb). rewrite E. cbn [andb].
+  cbn [chk last_block]. rewrite Hk. auto.
+Qed.
